@@ -145,3 +145,38 @@ package goja
 //@ iface objectImpl.assertCallable
 //@   props C04
 //@   assigns nothing
+
+// ---- own-key order bookkeeping (C04: integer keys ascending first, then strings in creation order)
+// propNames[0:idxPropCount] are the array-index keys in ascending order, propNames[idxPropCount:
+// lastSortedPropLen] are non-index keys, the tail is still unsorted.
+
+//@ func strToArrayIdx uninterpreted
+//@ func namesMarkedForCopy pure
+//@ func shrinkCap pure
+
+//@ define propOrderCounts = 0 <= o.idxPropCount && o.idxPropCount <= o.lastSortedPropLen && o.lastSortedPropLen <= len(o.propNames)
+//@ define propOrderIdxPrefix = forall k int :: 0 <= k && k < o.idxPropCount ==> strToArrayIdx(o.propNames[k]) != math.MaxUint32
+//@ define propOrderRest = forall k int :: o.idxPropCount <= k && k < o.lastSortedPropLen ==> strToArrayIdx(o.propNames[k]) == math.MaxUint32
+//@ define propOrderSorted = forall j, k int :: 0 <= j && j < k && k < o.idxPropCount ==> strToArrayIdx(o.propNames[j]) < strToArrayIdx(o.propNames[k])
+
+//@ func (*baseObject)._delete
+//@   props C04
+//@   requires o != nil && o.values != nil
+//@   requires @propOrderCounts
+//@   requires @propOrderIdxPrefix
+//@   requires @propOrderRest
+//@   requires @propOrderSorted
+//@   loop 1 vars rangeindex int
+//@   loop 1 invariant -1 <= rangeindex && rangeindex < len(o.propNames) && sameslice(o.propNames, old(o.propNames)) && o.idxPropCount == old(o.idxPropCount) && o.lastSortedPropLen == old(o.lastSortedPropLen) [nothing-yet]
+//@   loop 1 invariant forall k int :: 0 <= k && k < len(o.propNames) ==> o.propNames[k] == old(o.propNames[k]) [names-untouched]
+//@   exitvars rangeindex int
+//@   ensures (rangeindex+1) >= len(old(o.propNames)) ==> sameslice(o.propNames, old(o.propNames)) && o.idxPropCount == old(o.idxPropCount) && o.lastSortedPropLen == old(o.lastSortedPropLen) [absent-is-noop]
+//@   ensures forall k int :: (rangeindex+1) >= len(old(o.propNames)) && 0 <= k && k < len(o.propNames) ==> o.propNames[k] == old(o.propNames[k]) [absent-names-kept]
+//@   ensures (rangeindex+1) < len(old(o.propNames)) ==> 0 <= (rangeindex+1) && len(o.propNames) == len(old(o.propNames))-1 [removed-one]
+//@   ensures (rangeindex+1) < len(old(o.propNames)) ==> o.lastSortedPropLen == old(o.lastSortedPropLen) - specB2I((rangeindex+1) < old(o.lastSortedPropLen)) && o.idxPropCount == old(o.idxPropCount) - specB2I((rangeindex+1) < old(o.idxPropCount)) [counters-follow]
+//@   ensures forall k int :: (rangeindex+1) < len(old(o.propNames)) && 0 <= k && k < (rangeindex+1) ==> o.propNames[k] == old(o.propNames[k]) [prefix-kept]
+//@   ensures forall k int :: (rangeindex+1) < len(old(o.propNames)) && (rangeindex+1) <= k && k < len(o.propNames) ==> o.propNames[k] == old(o.propNames[k+1]) [suffix-shifted]
+//@   ensures @propOrderCounts [counts]
+//@   ensures @propOrderIdxPrefix [index-prefix]
+//@   ensures @propOrderRest [non-index-rest]
+//@   ensures @propOrderSorted [index-prefix-sorted]
